@@ -290,6 +290,7 @@ def install(lib, np_):
       return cx.p.new_loc(ArrState(fresh('asarray', T), Shape(nd, dims), 'f', FRESH))
     raise Unsupported('asarray(%r)' % (a,))
   ext('numpy.asanyarray')(_asarray)
+  ext('numpy.ascontiguousarray', 'ASSUMED: the same values in row-major memory; MAY BE THE ARGUMENT ITSELF (no copy when it is already C-contiguous)')(_asarray)
 
   @ext('numpy.atleast_1d')
   def _atleast_1d(cx, a):
